@@ -1,7 +1,6 @@
 package hs
 
 import (
-	"strings"
 	"bytes"
 	"context"
 	"crypto/tls"
@@ -11,6 +10,7 @@ import (
 	"net"
 	"runtime"
 	"sort"
+	"strings"
 	"sync"
 	"sync/atomic"
 	"time"
@@ -167,6 +167,9 @@ func getServer(cfg Cfg) (*liveServer, error) {
 		b.ListenTCP(addr, tcfg)
 		b.CompressionOptions(compList(cfg.Comp)...)
 		b.EncryptionOptions(encList(cfg.Enc)...)
+		// a second listener of another kind, added after the options were set: what it supports must not leak
+		// into what the TCP sessions are offered (the builder's options are shared by all listeners)
+		b.ListenInProcess(lime.InProcessAddr(fmt.Sprintf("hs-server-%d", addr.Port)))
 		b.ChannelBufferSize(16)
 		b.EnableGuestAuthentication()
 		// the authenticators answer what the case's queue says; each first checks that it was handed the
@@ -196,7 +199,7 @@ func getServer(cfg Cfg) (*liveServer, error) {
 				rtA.SetPasswordAsBase64("challenge")
 				return &lime.AuthenticationResult{Role: lime.DomainRoleUnknown, RoundTrip: rtA}, nil
 			}
-			return nil, errors.New("authenticator failed")
+			return nil, CallbackErr(n, "authenticator failed")
 		}
 		b.EnablePlainAuthentication(func(ctx context.Context, id lime.Identity, pwd string) (*lime.AuthenticationResult, error) {
 			return decide(id, strings.HasPrefix(pwd, "pw-"))
@@ -241,9 +244,9 @@ func getServer(cfg Cfg) (*liveServer, error) {
 				r.log(tr.Event{K: "reg", Ident: cls, Res: out})
 			}
 			if out == "ok" {
-				return RegNode, nil
+				return RegFor(cn), nil
 			}
-			return lime.Node{}, errors.New("register callback failed")
+			return lime.Node{}, CallbackErr(cn, "register callback failed")
 		})
 		b.Established(func(sid string, c *lime.ServerChannel) {
 			logBySid(sid, tr.Event{K: "cbEst", Tenc: string(lime.VerifTransport(c).Encryption())})
